@@ -82,11 +82,11 @@ Print Assumptions C26_known_unclassified_are_gaps.
 (* non-vacuity: the table has extracting and modifying rows, both outcomes occur for both layouts,
    and the specification knows every command mode of the source *)
 Example C26_nonvacuous :
-  In (CM_EXTRACTIMAGES, (1, 0)) perm_table /\ In (CM_ROTATE, (0, 1)) perm_table
+  perm_lookup perm_table CM_EXTRACTIMAGES = Some (1, 0) /\ perm_lookup perm_table CM_ROTATE = Some (0, 1)
   /\ userOnlyAccess CM_EXTRACTIMAGES (-3901) 2 = Denied /\ userOnlyAccess CM_EXTRACTIMAGES (-3901 + 16) 2 = Proceed
   /\ userOnlyAccess CM_EXTRACTIMAGES (-3901 + 16) 3 = Denied /\ userOnlyAccess CM_EXTRACTIMAGES (-3901 + 512) 3 = Proceed
   /\ userOnlyAccess CM_ROTATE (-3901) 2 = Denied /\ userOnlyAccess CM_ROTATE (-3901 + 8) 2 = Proceed
   /\ userOnlyAccess CM_ROTATE (-3901 + 8) 6 = Denied /\ userOnlyAccess CM_ROTATE (-3901 + 1024) 6 = Proceed
   /\ userOnlyAccess CM_LISTINFO (-3901) 4 = Proceed
   /\ forallb (fun m => negb (kind_is_row (spec_kind m))) all_modes = true.
-Proof. vm_compute. repeat split; try reflexivity; tauto. Qed.
+Proof. vm_compute. repeat split; reflexivity. Qed.
